@@ -266,7 +266,8 @@ class Volume(Part):
 
     def cases(self):
         n = 9000 if self.tier == "quick" else 60000
-        return [{"kind": k, "n": n} for k in ("v6", "v4", "secrets", "mixed")]
+        return [{"kind": k, "n": n} for k in ("v6", "v4", "secrets", "mixed")] + \
+               [{"kind": "mixed", "n": n + n // 3, "entry": e} for e in ("anonymize_files", "anonymize_file", "main")]
 
     def run(self, case):
         import ipaddress
@@ -289,12 +290,31 @@ class Volume(Part):
                 lines.append("neighbor %s peer %s password pw%d remote-as %d seattle%d" % (v4, v6, i, 65001, i))
         from netconan.anonymize_files import FileAnonymizer
 
+        root = None
         try:
-            with seams.capture_logs():
-                fa = FileAnonymizer(salt="saltForTest", **FEATURES_ALL)
-                out = io.StringIO()
-                fa.anonymize_io(io.StringIO("".join(l + "\n" for l in lines)), out)
-            got = out.getvalue().count("\n")
+            with seams.capture_logs(), seams.capture_stdio():
+                if case.get("entry"):
+                    # the same through a real file (file objects differ from in-memory streams)
+                    from netconan.anonymize_files import anonymize_files
+
+                    root = seams.scratch_dir("c14v")
+                    seams.write_tree(os.path.join(root, "in"), {"big.cfg": "".join(l + "\n" for l in lines)})
+                    src, dst = os.path.join(root, "in", "big.cfg"), os.path.join(root, "out.cfg")
+                    if case["entry"] == "anonymize_file":
+                        FileAnonymizer(salt="saltForTest", **FEATURES_ALL).anonymize_file(src, dst)
+                    elif case["entry"] == "anonymize_files":
+                        anonymize_files(src, dst, salt="saltForTest", **FEATURES_ALL)
+                    else:
+                        from netconan.netconan import main
+
+                        main(["-i", src, "-o", dst, "-s", "saltForTest", "-a", "-p", "-w", "seattle,xyzzy", "-n", "65001,12"])
+                    with open(dst, "rb") as fh:
+                        got = fh.read().count(b"\n")
+                else:
+                    fa = FileAnonymizer(salt="saltForTest", **FEATURES_ALL)
+                    out = io.StringIO()
+                    fa.anonymize_io(io.StringIO("".join(l + "\n" for l in lines)), out)
+                    got = out.getvalue().count("\n")
         except Exception as e:
             got = None
             # locate the failing line for the message
@@ -303,8 +323,11 @@ class Volume(Part):
         res.evals += n
         res.nt((kind, n))
         res.out(got)
+        if root:
+            shutil.rmtree(root, ignore_errors=True)
         if got is not None and got != n:
-            res.violation("line-count|large-input", "%d in, %r out" % (n, got), case)
+            res.violation("line-count|large-input%s" % ("|" + case["entry"] if case.get("entry") else ""),
+                          "%d lines in, %r out" % (n, got), case)
         res.samples.append({"kind": kind, "lines": n, "example": lines[0]})
         return res
 
